@@ -3,9 +3,18 @@
 // kernels assume for the internal spinlock (shim_sync/pika/concurrency/spinlock.hpp).
 #include "env_pre.hpp"
 #include <pika/concurrency/spinlock.hpp>
+#include <pika/thread_support/spinlock.hpp>
 #include "env_sync.hpp"
 
+#ifdef LOWLEVEL
+// the real low-level pika::detail::spinlock (thread_support); its back-off is one polling step
+namespace pika::detail {
+    void spinlock::yield_k(unsigned) noexcept { verif_spin(); }
+}
+static pika::detail::spinlock sl;
+#else
 static pika::concurrency::detail::spinlock sl;
+#endif
 static int in_cs, counter, sections;
 
 static void worker()
